@@ -52,6 +52,9 @@ class Report:
         self.exhaustive = None
         self.known = common.load_known_findings()
         self.wd = common.workdir(pid)
+        for f in os.listdir(self.wd):
+            if f.startswith('replay-'):
+                os.remove(os.path.join(self.wd, f))
         self.extra = {}
 
     def add_design(self, module, cfg, out, st, what=''):
